@@ -63,7 +63,7 @@ type State struct {
 
 	written map[string]bool // heap arrays written (recording for loops / frames)
 	wrLocal map[types.Object]bool
-	wrefs   map[string]map[string]bool // recording: references at which each heap array was written ("*" = unknown)
+	wrefs   map[string]map[string]*pcNode // recording: references at which each heap array was written ("*" = unknown), with the path condition at the write
 	allocs  *[]string                  // recording: references allocated
 
 	ghost map[string]Val // ghost variables
@@ -192,14 +192,14 @@ func (s *State) noteWrite(name string, ref ...string) {
 	if s.wrefs != nil {
 		set := s.wrefs[name]
 		if set == nil {
-			set = map[string]bool{}
+			set = map[string]*pcNode{}
 			s.wrefs[name] = set
 		}
 		if len(ref) == 0 {
-			set["*"] = true
+			set["*"] = s.pc
 		}
 		for _, r := range ref {
-			set[r] = true
+			set[r] = s.pc
 		}
 	}
 }
